@@ -134,6 +134,7 @@ Definition parse_op (ts : list str) : option req :=
         | _ => None end
       else if is_kw "SC" op then match args with [sid] => a <- p_nat sid ;; Some (RStreamClose a) | _ => None end
       else if is_kw "SR" op then match args with [sid] => a <- p_nat sid ;; Some (RStreamRead a) | _ => None end
+      else if is_kw "JOIN" op then match args with [id] => a <- p_nat id ;; Some (RJoin a) | _ => None end
       else None
   end.
 
@@ -193,6 +194,7 @@ Definition op_name (r : req) : str :=
   | RAck _ _ => kw "ACK" | RModify _ _ _ => kw "MOD" | RAdvance _ => kw "ADV"
   | RStats _ => kw "STATS" | RReg => kw "REG" | RStreamOpen _ _ _ _ => kw "SO"
   | RStreamSend _ _ _ _ _ _ _ => kw "SS" | RStreamClose _ => kw "SC" | RStreamRead _ => kw "SR"
+  | RPullBg _ _ _ => kw "BG" | RJoin _ => kw "PULL"
   end.
 
 Definition render (seen : list N) (r : req) (p : resp) : str * list N :=
@@ -212,6 +214,10 @@ Definition render (seen : list N) (r : req) (p : resp) : str * list N :=
   | PStream bs term =>
       let (a, s') := r_batches seen bs in
       (join_sp ([nm; r_num (len_N bs)] ++ a ++ [match term with None => [45] | Some c => r_num c end]), s')
+  | PPending => ([45], seen)
+  | PJoined (inl c) => (join_sp [nm; r_num c], seen)
+  | PJoined (inr ls) => let (a, s') := r_msgs seen ls in
+                        (join_sp ([nm; r_num 0; r_num (len_N ls)] ++ a), s')
   | PNone => (nm, seen)
   end.
 
@@ -244,24 +250,85 @@ Definition resp_acks (p : resp) : list str :=
   match p with
   | PMsgs ls => map (fun l => dec_of_N (l_ack l)) ls
   | PStream bs _ => flat_map (map (fun l => dec_of_N (l_ack l))) bs
+  | PJoined (inr ls) => map (fun l => dec_of_N (l_ack l)) ls
   | _ => []
   end.
 
 (* Runs the op lines of one case; an unparsable line renders as "?" and stops
    nothing (it is a harness/generator bug, never a property of the server). *)
-Fixpoint run_lines (sv : server) (seen : list N) (acks : list str) (lines : list (list str))
-  : list str :=
+(* Background calls.  "BG <id> PULL <sub> <max> 0" is a Pull without
+   return_immediately that is left running (the model parks it); any other
+   "BG <id> <op>" completes by the next quiescent point, so the model runs it at
+   once and keeps its result line for "JOIN <id>".  "Q" (quiesce) and
+   "YIELD <k>" are scheduling directives of the harness and change nothing here. *)
+Definition is_blocking_pull (ts : list str) : option (str * str) :=
+  match ts with
+  | [op; s; m; ri] => if is_kw "PULL" op && str_eqb ri [48] then Some (s, m) else None
+  | _ => None
+  end.
+
+Fixpoint run_lines (sv : server) (seen : list N) (acks : list str) (bg : list (N * str))
+                   (lines : list (list str)) : list str :=
   match lines with
   | [] => []
   | ts :: rest =>
-      if match ts with t :: _ => is_kw "SEED" t | [] => false end
-      then kw "SEED" :: run_lines sv seen acks rest else
-      match parse_op (map (resolve_tok acks) ts) with
-      | None => [63] :: run_lines sv seen acks rest
-      | Some r =>
-          let (sv', p) := api_step sv r in
-          let (line, seen') := render seen r p in
-          line :: run_lines sv' seen' (acks ++ resp_acks p) rest
+      let ts := map (resolve_tok acks) ts in
+      match ts with
+      | [] => run_lines sv seen acks bg rest
+      | op :: args =>
+          if is_kw "SEED" op then kw "SEED" :: run_lines sv seen acks bg rest
+          else if is_kw "Q" op then kw "Q" :: run_lines sv seen acks bg rest
+          else if is_kw "YIELD" op then kw "YIELD" :: run_lines sv seen acks bg rest
+          else if is_kw "BG" op then
+            match args with
+            | idt :: inner =>
+                match p_nat idt with
+                | None => [63] :: run_lines sv seen acks bg rest
+                | Some id =>
+                    match is_blocking_pull inner with
+                    | Some (s, m) =>
+                        match p_str s, p_int m with
+                        | Some s', Some m' =>
+                            let (sv', _) := api_step sv (RPullBg id s' m') in
+                            kw "BG" :: run_lines sv' seen acks bg rest
+                        | _, _ => [63] :: run_lines sv seen acks bg rest
+                        end
+                    | None =>
+                        match parse_op inner with
+                        | None => [63] :: run_lines sv seen acks bg rest
+                        | Some r =>
+                            let (sv', p) := api_step sv r in
+                            let (line, seen') := render seen r p in
+                            kw "BG" :: run_lines sv' seen' (acks ++ resp_acks p) ((id, line) :: bg) rest
+                        end
+                    end
+                end
+            | [] => [63] :: run_lines sv seen acks bg rest
+            end
+          else if is_kw "JOIN" op then
+            match args with
+            | [idt] =>
+                match p_nat idt with
+                | None => [63] :: run_lines sv seen acks bg rest
+                | Some id =>
+                    match alookup N.eqb id bg with
+                    | Some line => join_sp [kw "JOIN"; r_num id; line] :: run_lines sv seen acks (aremove N.eqb id bg) rest
+                    | None =>
+                        let (sv', p) := api_step sv (RJoin id) in
+                        let (line, seen') := render seen (RJoin id) p in
+                        join_sp [kw "JOIN"; r_num id; line] :: run_lines sv' seen' (acks ++ resp_acks p) bg rest
+                    end
+                end
+            | _ => [63] :: run_lines sv seen acks bg rest
+            end
+          else
+            match parse_op ts with
+            | None => [63] :: run_lines sv seen acks bg rest
+            | Some r =>
+                let (sv', p) := api_step sv r in
+                let (line, seen') := render seen r p in
+                line :: run_lines sv' seen' (acks ++ resp_acks p) bg rest
+            end
       end
   end.
 
@@ -289,7 +356,7 @@ Fixpoint cases_of (lines : list str) (cur : option (str * list str)) : list (str
   end.
 
 Definition run_case (c : str * list str) : list str :=
-  fst c :: run_lines init_server [] [] (map tokens (snd c)) ++ [kw "END"].
+  fst c :: run_lines init_server [] [] [] (map tokens (snd c)) ++ [kw "END"].
 
 Fixpoint join_nl (l : list str) : str :=
   match l with
